@@ -258,7 +258,7 @@ theorem finishIn_ctl {s₁ : AState ρ σ₁} {s₂ : AState ρ σ₂} (h : CtlE
   | true =>
     simp only [if_true]
     refine ⟨h, ?_⟩
-    cases s₂.kind.isSinc <;> simp [OutEq]
+    cases s₂.kind.isSinc <;> cases mask.any id <;> simp [OutEq]
   | false =>
     simp only [Bool.false_eq_true, if_false]
     have he := evalChannels_ctl h s₁.buf s₂.buf h.shape mask r.1
